@@ -360,6 +360,17 @@ class Analysis:
             # unsigned division by a power of two is the shift (operands of the analysed code are unsigned counts / bytes)
             if pb.is_const() and pow2(pb.const_value()) and pb.const_value() > 1:
                 return self.binop("Shr", a, I(pb.const_value().bit_length() - 1), site)
+            # (y * q) / y == q: exact division by a single-atom divisor that is a factor of every monomial (the division itself is guarded
+            # against y == 0 by the assert MIR places in front of it)
+            if len(pb.t) == 1 and not pb.is_const():
+                (mono, coeff), = pb.t.items()
+                if coeff == 1 and len(mono) == 1 and pa.t and all(mono[0] in k for k in pa.t):
+                    q = {}
+                    for k, v in pa.t.items():
+                        k2 = list(k)
+                        k2.remove(mono[0])
+                        q[tuple(k2)] = v
+                    return ("I", Poly(q))
             return ("I", Poly.atom(("div", pa, pb)))
         if op == "Rem":
             if pb.is_const() and pow2(pb.const_value()) and pb.const_value() > 1:
@@ -604,7 +615,7 @@ class Analysis:
                 return ("A", ("adt", RES, 1), (r_[2][0],))
             return ("A", ("adt", RES, 1), (("V", "residual", (cs.bb,), args[0] if same else None),))
 
-        if fn in ("core::slice::<impl [T]>::len",):
+        if fn in ("core::slice::<impl [T]>::len", "core::ptr::mut_ptr::<impl *mut [T]>::len", "core::ptr::const_ptr::<impl *const [T]>::len", "core::ptr::NonNull::<[T]>::len"):
             p = ptr()
             if p and p[3] is not None:
                 return ("I", p[3])
@@ -616,11 +627,24 @@ class Analysis:
         if fn in ("core::slice::<impl [T]>::as_ptr", "core::slice::<impl [T]>::as_mut_ptr",
                   "core::mem::MaybeUninit::<T>::as_mut_ptr", "core::mem::MaybeUninit::<T>::as_ptr",
                   "core::ptr::mut_ptr::<impl *mut T>::cast", "core::ptr::const_ptr::<impl *const T>::cast",
-                  "core::ptr::NonNull::<T>::as_ptr", "core::ptr::mut_ptr::<impl *mut T>::cast_const",
-                  "core::ptr::const_ptr::<impl *const T>::cast_mut"):
+                  "core::ptr::NonNull::<T>::as_ptr"):
             p = ptr()
             if p:
                 return ("P", p[1], p[2], None)
+        if fn in ("core::ptr::mut_ptr::<impl *mut T>::cast_const", "core::ptr::const_ptr::<impl *const T>::cast_mut"):
+            p = ptr()
+            if p:
+                return p  # same pointee type: a slice pointer keeps its length metadata
+        if fn in ("core::slice::<impl [T]>::as_ptr_range", "core::slice::<impl [T]>::as_mut_ptr_range") and targs:
+            p = ptr()
+            if p and p[3] is not None and te.size(targs[0]) is not None:
+                cs.no_effects = True
+                return ("A", ("adt", "core::ops::Range", 0), (("P", p[1], p[2], None), ("P", p[1], p[2] + p[3] * te.size(targs[0]), None)))
+        if cs.key == "const_transmute" and len(targs) >= 2 and all(t.get("k") in ("ref", "ptr") for t in targs[:2]) and args and args[0][0] == "P":
+            # a reference reinterpreted as a reference of another pointee type: the same (fat) pointer value; that the pointees have equal
+            # element sizes is the calling rule's obligation (C10.X)
+            cs.no_effects = True
+            return args[0]
         if fn in ("core::ops::Deref::deref", "core::ops::DerefMut::deref_mut"):
             p = ptr()
             selfty = targs[0] if targs else None
@@ -754,7 +778,7 @@ class Analysis:
                     return self.read_cell(st, p[1], (), rt)
                 return ("V", "mem", (p[1], p[2], tstr(rt) if rt else "?"))
         if fn in ("alloc::boxed::Box::<T>::into_raw", "alloc::boxed::Box::<T, A>::into_raw", "alloc::boxed::Box::<T>::from_raw", "alloc::boxed::Box::<T, A>::from_raw",
-                  "alloc::boxed::Box::<T>::leak", "alloc::boxed::Box::<T, A>::as_mut_ptr", "alloc::boxed::Box::<T, A>::as_ptr"):
+                  "alloc::boxed::Box::<T>::leak", "alloc::boxed::Box::<T, A>::leak", "alloc::boxed::Box::<T, A>::as_mut_ptr", "alloc::boxed::Box::<T, A>::as_ptr"):
             p = ptr()
             if p:
                 return p
